@@ -212,7 +212,7 @@ template <size_t K> struct Run1 {
             ruint<K> t; garbage(t); reset(t); ruint<K> u; garbage(u); copy(u, x); copy(u, u);
             ruint<K> hw(x), lw(x); set_highest_word(hw, w1); set_lowest_word(lw, w1);
             o << to_hex(t) << " " << to_hex(u) << " " << hex64(ms_limb(x)) << " " << to_hex(hw) << " " << to_hex(lw)
-              << " " << hex64(*begin(x)) << " " << (bool(x) ? 1 : 0) << " " << hex64((uint64_t)x) << " " << x.size();
+              << " " << hex64(*begin(x)) << " " << (bool(x) ? 1 : 0) << " " << hex64((uint64_t)x) << " " << hex64(x.size());
         }
         // ---- shifts
         V("shl.abc") { left_shift(r, x, w1); OUT1(r); }
